@@ -33,6 +33,9 @@ RULE = (
     'tionally derived from the class of the first value of the state vector'
     '); contents include payloads of about 90 KiB that differ only in their'
     ' last bytes. '
+    ' updwf: an update during which one catalogue write fails once and the '
+    'job is run again; rmshared: an entry whose content another entry share'
+    's is removed and the other one is loaded. '
 )
 ASSUMPTIONS = [
     'shelve backend only; client side through the real Connector and an '
